@@ -204,7 +204,7 @@ def _simp(exprs, simplifications):
     formulas."""
     for simp in simplifications:
         mexprs = apply_simp(exprs, simp)
-        if mexprs is not None:
+        if mexprs is not None and mexprs is not exprs:
             yield mexprs
 
 
